@@ -30,6 +30,20 @@ def initial_state(ex, fi, c, cx):
         for fact in ex.type_facts(v):
             st = st.assume(fact)
         st = ex.assume_allocated(st, v)
+        if n == 'self' and fi.cls is not None and ty.kind == 'ref' and fi.kind in ('method', 'getter', 'setter'):
+            # the receiver's dynamic class is one for which method resolution picks THIS implementation
+            mname = fi.node.name
+            ok = []
+            for d in sorted(ex.repo.subclasses.get(fi.cls.name, ())):
+                if fi.kind == 'getter':
+                    _, rfi = ex.repo.find_getter(d, mname)
+                elif fi.kind == 'setter':
+                    _, rfi = ex.repo.find_setter(d, mname)
+                else:
+                    _, rfi = ex.repo.find_method(d, mname)
+                if rfi is fi:
+                    ok.append(ex.repo.class_ids[d])
+            st = st.assume(z3.Or([ex.clsof(v.z) == i for i in ok]))
     for n, tys in c.ghost.items():
         v = ex.fresh(ex.tenv.parse(tys), n)
         st = st.setvar(n, v)
